@@ -123,7 +123,7 @@ def _unescape_tla(s):
     return "".join(out)
 
 
-def tlc_mc(module, consts=None, emit_path=None, workers=None, timeout=3600, tag=None, cfg=None, xmx="16g", coverage=False):
+def tlc_mc(module, consts=None, emit_path=None, workers=None, timeout=3600, tag=None, cfg=None, xmx="16g", coverage=False, simulate=None):
     """Exhaustive TLC run. Lines <<"B", "json">> are written (unescaped) to emit_path.
     Returns dict(states, distinct, depth, seconds, emitted, coverage). A spec-level invariant
     violation is a ToolError: the model is inconsistent with itself, nothing was decided."""
@@ -136,11 +136,15 @@ def tlc_mc(module, consts=None, emit_path=None, workers=None, timeout=3600, tag=
            "-noGenerateSpecTE", "-cleanup"]
     if coverage:
         cmd += ["-coverage", "1"]
+    if simulate:
+        # random behaviours of the same specification (num traces, depth, seed): invariants are evaluated on every state visited
+        cmd += ["-simulate", "num=%d" % simulate[0], "-depth", str(simulate[1]), "-seed", str(simulate[2])]
     cmd += [os.path.join(TLA, module + ".tla")]
     env = dict(os.environ)
     env["JAVA_TOOL_OPTIONS"] = java_opts()
     t0 = time.time()
     emitted = 0
+    stopped_sim = False
     tail = []
     res = {"states": 0, "distinct": 0, "depth": 0}
     out = open(emit_path, "w") if emit_path else None
@@ -153,6 +157,11 @@ def tlc_mc(module, consts=None, emit_path=None, workers=None, timeout=3600, tag=
                     body = body[len('<<"B", "'):body.rindex('">>')]
                     out.write(_unescape_tla(body) + "\n")
                 emitted += 1
+                if simulate and emitted >= simulate[0]:
+                    # enough random behaviours (TLC's own num= limit is per worker): stop the simulation here
+                    p.kill()
+                    stopped_sim = True
+                    break
                 continue
             tail.append(line)
             if len(tail) > 400:
@@ -174,10 +183,17 @@ def tlc_mc(module, consts=None, emit_path=None, workers=None, timeout=3600, tag=
     res["seconds"] = round(time.time() - t0, 1)
     res["emitted"] = emitted
     res["log_tail"] = txt[-3000:]
-    if "Error:" in txt or p.returncode != 0:
+    if "Error:" in txt or (p.returncode != 0 and not stopped_sim):
         sys.stderr.write(txt[-5000:])
         raise ToolError("TLC reported an error on %s (the specification is inconsistent or mis-configured)" % module)
-    if "Model checking completed. No error has been found." not in txt:
+    if simulate:
+        # simulation mode: states visited along the random behaviours (TLC's own count when it reported one)
+        ms = re.findall(r"Progress: (\d+) states checked, (\d+) traces generated", txt)
+        res["traces"] = emitted
+        res["distinct"] = emitted * simulate[1]
+        res["states"] = int(ms[-1][0]) if ms else emitted * simulate[1]
+        res["mode"] = "simulation num=%d depth=%d seed=%d" % simulate
+    if not simulate and "Model checking completed. No error has been found." not in txt:
         sys.stderr.write(txt[-3000:])
         raise ToolError("TLC did not complete on " + module)
     log("TLC %s: %d distinct states, %d emitted, %.1fs" % (tag, res["distinct"], emitted, res["seconds"]))
